@@ -223,26 +223,31 @@ def _live_one(seq):
     from flumine.events import events
 
     mids = ["1.100000001", "1.100000002"]
-    w = livex.LiveWorld([], strategies=("S0", "S1", "S2"), markets=mids)
+    w = livex.LiveWorld([], strategies=("S0", "S1", "S2", "S3", "S4"), markets=mids)
     w.start()
     out = []
     counts = {"clause:C20.b": 0, "clause:C20.d": 0, "clause:C20.f": 0, "live_closures": 0, "live_removals": 0, "live_reopens": 0, "live_kept_under_an_hour": 0}
     case = dict(live=[list(e) for e in seq])
     try:
         fw = w.framework
-        s0, s1, s2 = w.strategies
-        # S1: empty market filter (receives every closure), S2: subscribed to another stream
+        s0, s1, s2, s3, s4 = w.strategies
+        # S1: empty market filter (receives every closure), S2: subscribed to another stream; S3 / S4: no market
+        # filter at all (None / an empty list - e.g. sports-data-only strategies) on another stream: not "empty filter"
         s1.market_filter = {}
         s1.streams = []
         s2.streams = [type("OtherStream", (), {"stream_id": 424242})()]
-        calls = {0: 0, 1: 0, 2: 0}
+        s3.market_filter = None
+        s3.streams = [type("OtherStream", (), {"stream_id": 424243})()]
+        s4.market_filter = []
+        s4.streams = [type("OtherStream", (), {"stream_id": 424244})()]
+        calls = {0: 0, 1: 0, 2: 0, 3: 0, 4: 0}
         for k, st in enumerate(w.strategies):
             def pcm(market, mb, k=k):
                 calls[k] += 1
             st.process_closed_market = pcm
         # the initial books dispatched at start-up created both markets open
         model = {m: dict(present=True, closed=False, closed_at=None) for m in mids}
-        exp_calls = {0: 0, 1: 0, 2: 0}
+        exp_calls = {0: 0, 1: 0, 2: 0, 3: 0, 4: 0}
         w.api.session = w.session  # the closure worker calls the API outside the execution pool
         fetched = {m: {"ClearedOrdersEvent": 0, "ClearedMarketsEvent": 0} for m in mids}  # since the flags were last reset
         for ev in seq:
@@ -333,7 +338,7 @@ def _live_one(seq):
                     out.append(core.v("C20.d", ("live", "-", "closed flag", "-"), "after %s: market %s closed=%s expected %s" % (list(ev), m.market_id, m.closed, model[m.market_id]["closed"]), case))
             counts["clause:C20.b"] += 1
             if calls != exp_calls:
-                out.append(core.v("C20.b", ("live", "-", "callback count", "subscribed" if calls[2] == exp_calls[2] else "unsubscribed"), "after %s: process_closed_market calls %s, expected %s (S0 subscribed, S1 empty filter, S2 other stream)" % (list(ev), calls, exp_calls), case))
+                out.append(core.v("C20.b", ("live", "-", "callback count", "subscribed" if (calls[2], calls[3], calls[4]) == (exp_calls[2], exp_calls[3], exp_calls[4]) else "unsubscribed"), "after %s: process_closed_market calls %s, expected %s (S0 subscribed, S1 empty filter, S2 other stream, S3/S4 filter None/[] on other streams)" % (list(ev), calls, exp_calls), case))
                 break
         if w.handler_exceptions:
             out.append(core.v("C20.b", ("live", "-", "exception", "-"), w.handler_exceptions[0][-300:], case))
